@@ -19,3 +19,8 @@ CHECKS["C13"] = dict(
  text="PartIO.tla states the postconditions of WritePartitionContents / ReadPartitionContents / CopyPartitionRaw over geometry classes (start*sector across 2^32 bytes, start = 2^32-1 sectors, sizes not a multiple of the physical sector, logical != physical sector size, reader length size-1/size/size+1, odd chunking). TLC enumerates the tuples (quick: within 3 deviations of the base; thorough: full product of 4608), each is executed on a sparse guard-patterned in-memory disk through the real Disk API, and PartIO_Trace judges every recorded event.",
  note="Trusted: TLC, memdev write log and guard pattern. Multi-GiB partition sizes are not streamed (start offsets beyond 4 GiB / 2 TiB are); byte counts travel as strings.",
  technique="TLA+ postcondition spec over geometry classes + TLC tuple enumeration + trace validation of recorded I/O events")
+CHECKS["C15"] = dict(
+ level="fault_enumeration",
+ text="GptParse.tla defines the complete corruption space (every GPT header field x boundary value x copy x header-CRC-recomputed, all 2-field combinations of the size-determining fields, truncated devices, MBR field corruptions, seeded random images) and the allowed outcome classes; TLC enumerates it, every tuple is executed in a child process (deadline, address-space limit, TotalAlloc accounting) against the real partition.Read, and GptParse_Trace judges each outcome (table or error only; bounded allocation; a returned table must come from a copy the independent parser finds CRC-valid and must decode to the same entries).",
+ note="Robustness is observed, not modelled: the TLA+ contribution is the enumerated fault space and the outcome predicate. Allocation bound 8 x device + 64 MiB; deadline 15 s per case.",
+ technique="TLA+-enumerated fault space + child-process execution + trace validation of outcome classes")
